@@ -41,7 +41,7 @@ fn main() {
                 let name = r["scenario"].as_str().unwrap_or("").to_string();
                 let m = &r["mode"];
                 let mode = if let Some(p) = m.get("pct") {
-                    e2::Mode::Pct { seed: p[0].as_u64().unwrap(), preemptions: p[1].as_u64().unwrap() as usize }
+                    e2::Mode::Pct { seed: p[0].as_u64().unwrap(), preemptions: p[1].as_u64().unwrap() as usize, horizon: p[2].as_u64().unwrap_or(60) as usize }
                 } else if let Some(f) = m.get("free") {
                     e2::Mode::Free { seed: f.as_u64().unwrap() }
                 } else {
